@@ -73,6 +73,13 @@ static void gmres_case(const std::string &which, int n, int k, int prec, hx::Rng
     Vec r0=sub(s.f,mv(s.Ad,s.x0)), rk=sub(s.f,mv(s.Ad,std::get<2>(r))); std::vector<scalar> l, zz; Vec v=r0; for (int j=0;j<k;++j) { Vec w=mv(s.Ad,mv(s.Pd,v)); CX h=hdot(w,rk); l.push_back(h.real()); l.push_back(h.imag()); zz.push_back(scalar(0)); zz.push_back(scalar(0)); v=w; }
     hx::prove_eq_vec(which+" right (complex system): residual orthogonality condition of the minimiser over x0 + P K_k(AP, r0)", l, zz); },co); }
 
+// IDR(s): the minimal-residual coefficient.  omega(t, s) (private helper, params.omega = 0: no angle correction) must be the minimiser of |s - omega t|, i.e.
+// t^H (s - omega t) = 0, for complex data too (fully symbolic complex vectors); the residual-smoothing step uses the same formula with (t, r_s)
+static void idrs_omega_case(int n) { hx::run_case("complex/idrs-omega/n"+std::to_string(n), [&]() { sv::idrs<BE>::params prm; prm.s=1; prm.omega=scalar(0); sv::idrs<BE> S(n,prm);
+    NV t(n,false), sv_(n,false); scalar tt=0; for (int i=0;i<n;++i) { t[i]=CX(var("tr"+std::to_string(i),0.5+0.25*i),var("ti"+std::to_string(i),-0.75+0.5*i)); sv_[i]=CX(var("sr"+std::to_string(i),1.25-0.5*i),var("si"+std::to_string(i),0.25+0.75*i)); tt+=t[i].real()*t[i].real()+t[i].imag()*t[i].imag(); }
+    hx::assume(hx::lt(scalar(0),tt)); CX om=S.omega(t,sv_); CX g(scalar(0),scalar(0)); for (int i=0;i<n;++i) g=add(g,mul(cj(t[i]),sb(sv_[i],mul(om,t[i]))));
+    hx::prove_eq_vec("idrs: omega minimises |s - omega t| (t^H (s - omega t) = 0) on complex vectors", std::vector<scalar>{g.real(),g.imag()}, std::vector<scalar>{scalar(0),scalar(0)}); }); }
+
 int main(int argc, char **argv) {
     hx::parse_args(argc,argv); bool T=hx::thorough(); hx::Rng rng(hx::args().seed);
     hx::encodes("solver::{cg,bicgstab,gmres,fgmres,lgmres,idrs}<builtin<std::complex<scalar>>>::operator() with maxiter = k, no cuts (exact Gaussian rationals / algebraic numbers)");
@@ -83,5 +90,6 @@ int main(int argc, char **argv) {
     // GMRES family, k < n (at k = n exact arithmetic divides by the vanished norm of the next Arnoldi vector: no verdict there)
     for (int n=2;n<=4;++n) for (int k=std::max(1,n-2);k<n;++k) for (int prec : {0,2}) { if (prec==2 && n==4 && !T) continue; gmres_case("gmres",n,k,prec,rng); gmres_case("fgmres",n,k,prec,rng); gmres_case("lgmres",n,k,prec,rng); }
     for (int n=2;n<=(T?4:3);++n) { term_case<sv::cg<BE>>("cg",n,true,0,rng,[](auto&){}); term_case<sv::bicgstab<BE>>("bicgstab",n,false,0,rng,[](auto&){}); term_case<sv::idrs<BE>>("idrs-s1",n,false,n,rng,[](auto &p){ p.s=1; }); term_case<sv::idrs<BE>>("idrs-s2",n,false,n/2,rng,[](auto &p){ p.s=2; }); if (n>=3) term_case<sv::idrs<BE>>("idrs-s3",n,false,n/3,rng,[](auto &p){ p.s=3; }); }
+    idrs_omega_case(1); idrs_omega_case(2);
     return hx::finish();
 }
